@@ -1,0 +1,142 @@
+//go:build verif
+
+package fp
+
+// Contracts for fp.Seq (seq.go), checked by /verif/govc.  Comment-only file.
+// Loop invariants are stated for the loop they cut ("loop K" = K-th for
+// statement of the function, in source order) and use the function's own
+// identifiers; idx_ names the index of a range loop that has none.
+
+//@ func (Seq).Get(r, idx) result
+//@   prop C12
+//@   requires idx >= 0
+//@   ensures idx < len(r) ==> Eq(result, Some(r[idx]))
+//@   ensures idx >= len(r) ==> Eq(result, None[T]())
+//
+//@ func (Seq).Head(r) result
+//@   prop C12
+//@   ensures len(r) > 0 ==> Eq(result, Some(r[0]))
+//@   ensures len(r) == 0 ==> Eq(result, None[T]())
+//
+//@ func (Seq).Last(r) result
+//@   prop C12
+//@   ensures len(r) > 0 ==> Eq(result, Some(r[len(r)-1]))
+//@   ensures len(r) == 0 ==> Eq(result, None[T]())
+//
+//@ func (Seq).Init(r) result
+//@   prop C12 C04
+//@   ensures len(r) > 1 ==> len(result) == len(r)-1 && (forall i int :: 0 <= i && i < len(r)-1 ==> Eq(result[i], r[i]))
+//@   ensures len(r) <= 1 ==> len(result) == 0
+//@   ensures Unchanged()
+//
+//@ func (Seq).Tail(r) result
+//@   prop C12 C04
+//@   ensures len(r) > 0 ==> len(result) == len(r)-1 && (forall i int :: 0 <= i && i < len(r)-1 ==> Eq(result[i], r[i+1]))
+//@   ensures len(r) == 0 ==> len(result) == 0
+//@   ensures Unchanged()
+//
+//@ func (Seq).Take(r, n) result
+//@   prop C12 C04
+//@   requires n >= 0
+//@   ensures n <= len(r) ==> len(result) == n
+//@   ensures n > len(r) ==> len(result) == len(r)
+//@   ensures forall i int :: 0 <= i && i < len(result) ==> Eq(result[i], r[i])
+//@   ensures Unchanged()
+//
+//@ func (Seq).Drop(r, n) result
+//@   prop C12 C04
+//@   requires n >= 0
+//@   ensures n <= len(r) ==> len(result) == len(r)-n
+//@   ensures n > len(r) ==> len(result) == 0
+//@   ensures forall i int :: 0 <= i && i < len(result) ==> Eq(result[i], r[i+n])
+//@   ensures Unchanged()
+//
+//@ func (Seq).Map(r, mf) result
+//@   prop C04 C12
+//@   ensures len(result) == len(r)
+//@   ensures forall i int :: 0 <= i && i < len(r) ==> Eq(result[i], mf(r[i]))
+//@   ensures Fresh(result) && Unchanged()
+//@   loop 0 invariant len(ret) == idx_ && idx_ < len(r) && Fresh(ret)
+//@   loop 0 invariant forall j int :: 0 <= j && j < idx_ ==> Eq(ret[j], mf(r[j]))
+//@   loop 0 decreases len(r) - idx_
+//
+//@ func (Seq).Filter(r, p) result
+//@   prop C04 C12
+//@   ensures len(result) <= len(r)
+//@   ensures forall k int :: 0 <= k && k < len(result) ==> p(result[k])
+//@   ensures Fresh(result) && Unchanged()
+//@   loop 0 invariant 0 <= idx_ && idx_ < len(r) && len(ret) <= idx_ && Fresh(ret)
+//@   loop 0 invariant forall k int :: 0 <= k && k < len(ret) ==> p(ret[k])
+//@   loop 0 decreases len(r) - idx_
+//
+//@ lemma seqFilter3[T any](a, b, c T, p func(T) bool)
+//@   prop C12
+//@   option unroll
+//@   ensures p(a) && p(b) && p(c) ==> Eq(Seq[T]{a, b, c}.Filter(p), Seq[T]{a, b, c})
+//@   ensures p(a) && !p(b) && p(c) ==> Eq(Seq[T]{a, b, c}.Filter(p), Seq[T]{a, c})
+//@   ensures !p(a) && p(b) && !p(c) ==> Eq(Seq[T]{a, b, c}.Filter(p), Seq[T]{b})
+//@   ensures !p(a) && !p(b) && !p(c) ==> len(Seq[T]{a, b, c}.Filter(p)) == 0
+//@   ensures !p(a) && p(b) && p(c) ==> Eq(Seq[T]{a, b, c}.FilterNot(p), Seq[T]{a})
+//
+//@ func (Seq).Exists(r, p) result
+//@   prop C12 C04
+//@   ensures result ==> (exists i int :: 0 <= i && i < len(r) && p(r[i]))
+//@   ensures !result ==> (forall i int :: 0 <= i && i < len(r) ==> !p(r[i]))
+//@   ensures Unchanged()
+//@   loop 0 invariant 0 <= idx_ && idx_ < len(r) && (forall j int :: 0 <= j && j < idx_ ==> !p(r[j]))
+//@   loop 0 decreases len(r) - idx_
+//
+//@ func (Seq).ForAll(r, p) result
+//@   prop C12 C04
+//@   ensures result ==> (forall i int :: 0 <= i && i < len(r) ==> p(r[i]))
+//@   ensures !result ==> (exists i int :: 0 <= i && i < len(r) && !p(r[i]))
+//@   ensures Unchanged()
+//@   loop 0 invariant 0 <= idx_ && idx_ < len(r) && (forall j int :: 0 <= j && j < idx_ ==> p(r[j]))
+//@   loop 0 decreases len(r) - idx_
+//
+//@ func (Seq).Find(r, p) result
+//@   prop C12 C04
+//@   ensures result.IsDefined() ==> (exists i int :: 0 <= i && i < len(r) && Eq(r[i], result.Get()) && p(r[i]) && (forall j int :: 0 <= j && j < i ==> !p(r[j])))
+//@   ensures !result.IsDefined() ==> (forall i int :: 0 <= i && i < len(r) ==> !p(r[i]))
+//@   ensures Unchanged()
+//@   loop 0 invariant 0 <= idx_ && idx_ < len(r) && (forall j int :: 0 <= j && j < idx_ ==> !p(r[j]))
+//@   loop 0 decreases len(r) - idx_
+//
+//@ func (Seq).FlatMap(r, mf) result
+//@   prop C04
+//@   ensures Fresh(result) && Unchanged()
+//@   loop 0 invariant 0 <= idx_ && idx_ < len(r) && Fresh(ret)
+//@   loop 0 decreases len(r) - idx_
+//
+//@ func (Seq).Append(r, items) result
+//@   prop C04 C12
+//@   ensures len(result) == len(r) + len(items)
+//@   ensures forall i int :: 0 <= i && i < len(r) ==> Eq(result[i], r[i])
+//@   ensures forall i int :: 0 <= i && i < len(items) ==> Eq(result[len(r)+i], items[i])
+//@   ensures len(items) > 0 ==> Fresh(result)
+//@   ensures Unchanged()
+//@   loop 0 invariant 0 <= i && i < len(tail) && len(ret) == len(r)+len(tail) && Fresh(ret)
+//@   loop 0 invariant forall j int :: 0 <= j && j < len(r) ==> Eq(ret[j], r[j])
+//@   loop 0 invariant forall j int :: 0 <= j && j < i ==> Eq(ret[len(r)+j], tail[j])
+//@   loop 0 decreases len(tail) - i
+//
+//@ func (Seq).Concat(r, tail) result
+//@   prop C04 C12
+//@   ensures len(result) == len(r) + len(tail)
+//@   ensures forall i int :: 0 <= i && i < len(r) ==> Eq(result[i], r[i])
+//@   ensures forall i int :: 0 <= i && i < len(tail) ==> Eq(result[len(r)+i], tail[i])
+//@   ensures len(tail) > 0 ==> Fresh(result)
+//@   ensures Unchanged()
+//@   loop 0 invariant 0 <= i && i < len(tail) && len(ret) == len(r)+len(tail) && Fresh(ret)
+//@   loop 0 invariant forall j int :: 0 <= j && j < len(r) ==> Eq(ret[j], r[j])
+//@   loop 0 invariant forall j int :: 0 <= j && j < i ==> Eq(ret[len(r)+j], tail[j])
+//@   loop 0 decreases len(tail) - i
+//
+//@ func (Seq).Reverse(r) result
+//@   prop C04 C12
+//@   ensures len(result) == len(r)
+//@   ensures forall i int :: 0 <= i && i < len(r) ==> Eq(result[len(r)-1-i], r[i])
+//@   ensures Fresh(result) && Unchanged()
+//@   loop 0 invariant 0 <= i && i < len(r) && len(ret) == len(r) && Fresh(ret)
+//@   loop 0 invariant forall j int :: 0 <= j && j < i ==> Eq(ret[len(r)-1-j], r[j])
+//@   loop 0 decreases len(r) - i
